@@ -117,6 +117,50 @@ fn main() {
             out.flush().unwrap();
             continue;
         }
+        if p.len() >= 3 && p[0] == "dtget" {
+            // dtget <s|ms|us|ns> <ts>  ->  G <year> <month> <day> <hour> <minute> <second> <ns of day from time()> <ts after as_cr -> into> | NONE | PANIC
+            use tevec::prelude::unit::*;
+            let u = p[1].to_string();
+            let ts: i64 = p[2].parse().unwrap();
+            let r = std::panic::catch_unwind(move || {
+                macro_rules! run { ($U:ty) => {{
+                    let d = DateTime::<$U>::new(ts);
+                    match (d.year(), d.month(), d.day(), d.hour(), d.minute(), d.second(), d.time(), d.as_cr()) {
+                        (Some(y), Some(mo), Some(dd), Some(h), Some(mi), Some(sec), Some(t), Some(cr)) => {
+                            use chrono::Timelike;
+                            let tod = t.num_seconds_from_midnight() as i64 * 1_000_000_000 + t.nanosecond() as i64;
+                            let back: DateTime<$U> = cr.into();
+                            format!("G {} {} {} {} {} {} {} {}", y, mo, dd, h, mi, sec, tod, back.0)
+                        },
+                        (None, None, None, None, None, None, None, None) => "NONE".to_string(),
+                        _ => "MIXED".to_string(),
+                    }
+                }} }
+                match u.as_str() { "s" => run!(Second), "ms" => run!(Millisecond), "us" => run!(Microsecond), _ => run!(Nanosecond) }
+            });
+            match r {
+                Ok(x) => writeln!(out, "{}", x).unwrap(),
+                Err(e) => {
+                    let msg = e.downcast_ref::<String>().cloned().or_else(|| e.downcast_ref::<&str>().map(|s| s.to_string())).unwrap_or_default();
+                    writeln!(out, "PANIC {}", msg.replace('\n', " ")).unwrap()
+                },
+            }
+            out.flush().unwrap();
+            continue;
+        }
+        if p.len() >= 3 && p[0] == "crcal" {
+            // crcal <unix seconds> <ns of second>  ->  C <year> <month> <day> <hour> <minute> <second> <ns of day>   (chrono alone, no tevec code)
+            use chrono::{Datelike, Timelike};
+            let secs: i64 = p[1].parse().unwrap();
+            let ns: u32 = p[2].parse().unwrap();
+            match chrono::DateTime::from_timestamp(secs, ns) {
+                Some(d) => writeln!(out, "C {} {} {} {} {} {} {}", d.year(), d.month(), d.day(), d.hour(), d.minute(), d.second(),
+                                    d.time().num_seconds_from_midnight() as i64 * 1_000_000_000 + d.time().nanosecond() as i64).unwrap(),
+                None => writeln!(out, "NONE").unwrap(),
+            }
+            out.flush().unwrap();
+            continue;
+        }
         if p.len() >= 4 && p[0] == "into_unit" {
             // into_unit <s|ms|us|ns> <s|ms|us|ns> <i64>  ->  R <i64> | PANIC <msg>
             use tevec::prelude::unit::*;
